@@ -113,9 +113,49 @@ def prove(name, assumptions, claim, timeout_ms=20000, model_vars=None, key=None,
     try: os.waitpid(cpid, 0)
     except OSError: pass
     if buf and not killed:
-        try: return pickle.loads(buf)
+        try:
+            res = pickle.loads(buf)
+            if res['status'] == 'undecided': res = _sample_model(name, assumptions, claim, model_vars, key, detail) or res
+            return res
         except Exception: pass
+    alt = _sample_model(name, assumptions, claim, model_vars, key, detail)
+    if alt is not None: return alt
     return ob(name, 'undecided', solver_s=time.time() - t0, key=key, detail=(detail + (' solver process killed after %.0f s: its timeout was not honoured' % budget if killed else ' solver process died without a result')).strip(), solver='z3/' + plan[-1][0])
+
+def _sample_model(name, assumptions, claim, model_vars, key, detail, seconds=12.0):
+    """last resort for a query the solver left open: look for a counter-model by evaluating the (Ackermannised) formula at random small rationals.  A hit is a genuine model (checked by evaluation);
+       no hit says nothing.  Only the 'sat' side can come out of this, so it can turn an undecided obligation into a candidate (which is then replayed), never into a discharged one."""
+    import random
+    try:
+        fs = _ackermannize(list(assumptions) + [z3.Not(claim)]); consts = {}
+        stack = list(fs); seen = set()
+        while stack:
+            u = stack.pop()
+            if u.get_id() in seen: continue
+            seen.add(u.get_id())
+            if z3.is_const(u) and u.decl().kind() == z3.Z3_OP_UNINTERPRETED: consts[u.get_id()] = u
+            stack.extend(u.children())
+        cs = list(consts.values()); rng = random.Random(20240607); t0 = time.time(); tries = 0
+        while time.time() - t0 < seconds:
+            tries += 1; sub = []
+            for c in cs:
+                if z3.is_bool(c): v = z3.BoolVal(rng.random() < 0.5)
+                elif z3.is_int(c): v = z3.IntVal(rng.randint(-3, 12))
+                else: v = z3.RealVal(rng.randint(-12, 12)) / z3.RealVal(rng.choice([1, 1, 2, 3, 4, 8]))
+                sub.append((c, z3.simplify(v)))
+            if all(z3.is_true(z3.simplify(z3.substitute(f, *sub))) for f in fs):
+                def val(t):
+                    if not llsym.is_sym(t): return t
+                    v = z3.simplify(z3.substitute(t, *sub))
+                    if z3.is_rational_value(v): return [v.numerator_as_long(), v.denominator_as_long()]
+                    if z3.is_int_value(v): return [v.as_long(), 1]
+                    if z3.is_true(v): return [1, 1]
+                    if z3.is_false(v): return [0, 1]
+                    return str(v)
+                mv = {k: ([val(x) for x in t] if isinstance(t, (list, tuple)) else val(t)) for k, t in (model_vars or {}).items()}
+                return ob(name, 'candidate', solver_s=time.time() - t0, model=mv, key=key, detail=(detail + ' counter-model found by evaluation at random rationals (try %d) after the solver left the query open' % tries).strip(), solver='z3/simplify-eval')
+    except Exception: pass
+    return None
 
 def _plan(tactic, timeout_ms):
     return [('default', timeout_ms)] if tactic is None else [('nlsat', timeout_ms), ('default', max(2000, timeout_ms // 5))] if tactic == 'nra' else [('ack-nlsat', timeout_ms), ('default', max(2000, timeout_ms // 5))] if tactic == 'nra-uf' else [(tactic, timeout_ms)]
